@@ -51,7 +51,7 @@ mod imp {
     impl Val { pub fn show(&self) -> String { match self { Val::Int(n) => n.to_string(), Val::Str(s) => s.clone() } } }
 
     #[derive(Clone, Debug, PartialEq)]
-    pub enum FnKind { AddK(i64), ReadG(String), BumpG(String), Boom, CallF(String, i64) }
+    pub enum FnKind { AddK(i64), ReadG(String), BumpG(String), Boom, CallF(String, i64), Apply }
     #[derive(Clone, Debug, PartialEq)]
     pub struct FnDef { pub tag: String, pub kind: FnKind }
 
@@ -63,6 +63,7 @@ mod imp {
         Def { name: String, def: FnDef },
         PrintVar { name: String },
         PrintCall { f: String, arg: i64 },
+        PrintApply { a: String, f: String, arg: i64 },   // println(a(f, arg)): a takes a function value and has no globals
         PrintLit { text: String },
         Raw { text: String },                 // compile-time rejected text
     }
@@ -86,9 +87,11 @@ mod imp {
                 FnKind::BumpG(g) => format!("fn {}(x) {{ println(\"{}\"); {} = {} + x; return {} }}", name, def.tag, g, g, g),
                 FnKind::Boom => format!("fn {}(x) {{ println(\"{}\"); return x / zero }}", name, def.tag),
                 FnKind::CallF(t, k) => format!("fn {}(x) {{ println(\"{}\"); return {}(x) + {} }}", name, def.tag, t, k),
+                FnKind::Apply => format!("fn {}(cb, x) {{ return cb(x) }}", name),
             },
             Stmt::PrintVar { name } => format!("println({})", name),
             Stmt::PrintCall { f, arg } => format!("println({}({}))", f, arg),
+            Stmt::PrintApply { a, f, arg } => format!("println({}({}, {}))", a, f, arg),
             Stmt::PrintLit { text } => format!("println(\"{}\")", text),
             Stmt::Raw { text } => text.clone(),
         }
@@ -112,6 +115,7 @@ mod imp {
                     _ => Err(()) },
                 FnKind::Boom => Err(()),
                 FnKind::CallF(t, k) => self.call(&t, arg, out).map(|v| v + k),
+                FnKind::Apply => Err(()),
             }
         }
         pub fn input(&mut self, stmts: &[Stmt], expect: Expect) -> OStep {
@@ -125,7 +129,7 @@ mod imp {
                     Stmt::Def { name, def } => { self.vars.remove(name); self.fns.insert(name.clone(), def.clone()); }
                     Stmt::PrintVar { name } => { out.push_str(&self.vars[name].0.show()); out.push('\n'); }
                     Stmt::PrintLit { text } => { out.push_str(text); out.push('\n'); }
-                    Stmt::PrintCall { f, arg } => match self.call(f, *arg, &mut out) {
+                    Stmt::PrintCall { f, arg } | Stmt::PrintApply { f, arg, .. } => match self.call(f, *arg, &mut out) {
                         Ok(v) => { out.push_str(&v.to_string()); out.push('\n'); }
                         Err(()) => return OStep { class: "runtime-error", output: out, value: String::new() },
                     },
@@ -156,7 +160,7 @@ mod imp {
         }
         fn all_vars(&self) -> Vec<String> { let mut v: Vec<String> = self.o.vars.keys().filter(|k| k.as_str() != "zero" && !k.starts_with("junk")).cloned().collect(); v.sort(); v }
         fn fns(&self, safe: bool) -> Vec<String> {
-            let mut v: Vec<String> = self.o.fns.iter().filter(|(_, d)| !safe || !self.fails(d)).map(|(k, _)| k.clone()).collect();
+            let mut v: Vec<String> = self.o.fns.iter().filter(|(_, d)| d.kind != FnKind::Apply && (!safe || !self.fails(d))).map(|(k, _)| k.clone()).collect();
             v.sort(); v
         }
         /// does a call of this function fail (division by zero), directly or in the function it calls?
@@ -199,6 +203,16 @@ mod imp {
                     else if k < 8 && !mv.is_empty() { let gname = self.pick(&mv); assigned_here.insert(gname.clone()); FnKind::BumpG(gname) }
                     else { FnKind::Boom };
                 Some(Stmt::Def { name, def: FnDef { tag, kind } })
+            } else if r < 50 {
+                // a higher-order function without globals of its own, and calls through it
+                let appliers: Vec<String> = { let mut v: Vec<String> = self.o.fns.iter().filter(|(_, d)| d.kind == FnKind::Apply).map(|(k, _)| k.clone()).collect(); v.sort(); v };
+                if appliers.is_empty() || (appliers.len() < 2 && self.rng.chance(1, 4)) {
+                    let name = self.fresh("a");
+                    defined_here.insert(name.clone());
+                    Some(Stmt::Def { name, def: FnDef { tag: String::new(), kind: FnKind::Apply } })
+                } else if !fs.is_empty() {
+                    Some(Stmt::PrintApply { a: self.pick(&appliers), f: self.pick(&fs), arg: self.rng.range_i64(0, 9) })
+                } else { None }
             } else if r < 62 && !av.is_empty() {
                 Some(Stmt::PrintVar { name: self.pick(&av) })
             } else if r < 92 && !fs.is_empty() {
@@ -363,6 +377,7 @@ mod imp {
                 if !failed { ops.push("OReturn".into()); }
                 (ops, failed)
             }
+            FnKind::Apply => { problems.push(format!("{} is called without a function argument", f)); (ops, false) }
         }
     }
 
@@ -416,10 +431,23 @@ mod imp {
                                     Stmt::SetLit { name, val } => ops.push(format!("OSetIdx {} {}", top_idx(name, &mut problems), zc(*val))),
                                     Stmt::AddTo { name, k } => ops.push(format!("OAddIdx {} {}", top_idx(name, &mut problems), zc(*k))),
                                     Stmt::Def { name, def } => { if let Some(l) = unit_lay.get(name) { fn_lay.insert(name.clone(), l.clone()); }
-                                        ops.push(format!("OSetIdx {} {}", top_idx(name, &mut problems), 2_000_000 + def.tag[1..].parse::<i64>().unwrap_or(0))) }
+                                        ops.push(format!("OSetIdx {} {}", top_idx(name, &mut problems), 2_000_000 + def.tag.get(1..).and_then(|t| t.parse::<i64>().ok()).unwrap_or(0))) }
                                     Stmt::PrintVar { name } => ops.push(format!("OPrintIdx {} 0", top_idx(name, &mut problems))),
                                     Stmt::PrintLit { .. } => {}
                                     Stmt::Raw { .. } => { ops.push("OFail".into()); failed = true; }
+                                    Stmt::PrintApply { a, f, arg } => {
+                                        match fn_lay.get(a).cloned() {
+                                            Some(la) => {
+                                                ops.push(format!("OCall {}", coq_layout(&la, &mut names)));
+                                                let (o2, f2) = emit_call(f, *arg, 0, &cur.fns, &fn_lay, &mut names, &mut problems, None);
+                                                // the printed value is printed by the top level after both returns; its position among
+                                                // the observations is the same
+                                                ops.extend(o2);
+                                                if f2 { failed = true; } else { ops.push("OReturn".into()); }
+                                            }
+                                            None => problems.push(format!("no layout known for {}", a)),
+                                        }
+                                    }
                                     Stmt::PrintCall { f, arg } => {
                                         let (o2, f2) = emit_call(f, *arg, 0, &cur.fns, &fn_lay, &mut names, &mut problems, None);
                                         ops.extend(o2);
